@@ -210,7 +210,9 @@ def run(tier, seed):
                             region = 'edge' if (hi_t <= lim0 or hi_t >= 1.0 - lim1) else 'body'
                         best.setdefault(region, (f, cnt2, hi_t))
                 for region, (f, cnt2, hi_t) in best.items():
-                    ver.add({'ty': c['ty'], 'kind': 'law', 'statistic': kind, 'repr': rr['repr'], 'region': region, 'alpha_min': min(c['pv'])},
+                    # the 1 - b cancellation of the FromBeta path cannot touch the first component's marginal (x_0 = b_0)
+                    exposed = not (kind == 'marg' and i == 0)
+                    ver.add({'ty': c['ty'], 'kind': 'law', 'statistic': kind, 'repr': rr['repr'], 'region': region, 'alpha_min': min(c['pv']), 'after_first_stick': exposed},
                             {'case': c['id'], 'statistic': kind, 'i': i, 'j': j, 'reference': bid, 'flag': f, 'threshold': hi_t, 'stage2_count': cnt2, 'n2': n_ok})
     rc = ver.finish()
     cov = {
